@@ -96,7 +96,7 @@ def run(ck):
                 back = SmtLibParser(env).get_script(io.StringIO(buf.getvalue()))
                 g = [c.args[0] for c in back.commands if c.name == "assert"][-1]
                 ev["same"] = g is f
-                ev["parsed"] = term_io.export(g)
+                ev["parsed"] = term_io.export_result(g)
                 ev["res"] = "ok"
                 ck.nontrivial((dag, term_io.term_key(fj)))
             except Exception as ex:
@@ -130,7 +130,7 @@ def run(ck):
                     ck.count()
                     evs.append(ev)
                     continue
-                ev["parsed"] = term_io.export(g)
+                ev["parsed"] = term_io.export_result(g)
                 ev["toks1"] = [x for x in re.findall(r"[^\s()]+|[()]", s1) if x not in "()"]
                 ev["toks2"] = [x for x in re.findall(r"[^\s()]+|[()]", g.serialize()) if x not in "()"]
                 ev["res"] = "ok"
@@ -163,7 +163,7 @@ def run(ck):
                 except Exception:
                     hr_unparsed["name:" + n] = hr_unparsed.get("name:" + n, 0) + 1
                     continue
-                ev["parsed"] = term_io.export(g)
+                ev["parsed"] = term_io.export_result(g)
                 ev["toks1"] = [x_ for x_ in re.findall(r"[^\s()]+|[()]", s1) if x_ not in "()"]
                 ev["toks2"] = [x_ for x_ in re.findall(r"[^\s()]+|[()]", g.serialize()) if x_ not in "()"]
                 ev["res"] = "ok"
